@@ -58,7 +58,10 @@ func (s *SetWithTTL[T]) Contains(e T) bool {
 	if !ok {
 		return false
 	}
-	return item.After(s.Clock.Now())
+	// an item is a member until its expiration has passed, the same rule
+	// cleanup (and so Members and Length) applies, so that all queries agree
+	// at the expiry instant itself
+	return !item.Before(s.Clock.Now())
 }
 
 func (s *SetWithTTL[T]) cleanup() int {
